@@ -49,10 +49,10 @@ Definition c03_separate_explored : list string :=
 (* delegating pairs whose SR decoder is NOT position-relative, with their own pair theorem *)
 Definition c03_delegating_nonrelative_proved : list string :=
   [ "DecodeVisualSampleEntry"  (* C03_vse_pair_agree_canonical *) ].
-(* delegating pairs whose SR decoder is NOT position-relative (GetPos, LookAhead, children decoded with DecodeBoxSR, a decoder
-   table): the delegation shape is still REQUIRED of them; that the SR decoder behaves the same on a private body reader is explored *)
+(* delegating pairs whose SR decoder is NOT position-relative (SetPos, GetPos outside differences, LookAhead, children decoded with
+   DecodeBoxSR, a decoder table): the delegation shape is still REQUIRED of them; that the SR decoder behaves the same on a private body reader is explored *)
 Definition c03_delegating_nonrelative_explored : list string :=
-  [ "DecodeEmsg"; "DecodeEsds"; "DecodeEvte"; "DecodeMeta"; "DecodeSgpd"; "DecodeStpp"; "DecodeTrep"; "DecodeWvtt" ].
+  [ "DecodeEsds"; "DecodeEvte"; "DecodeMeta"; "DecodeSgpd"; "DecodeStpp"; "DecodeTrep"; "DecodeWvtt" ].
 (* container twins whose SR decoder additionally returns sr.AccError() (KCont of the framing model returns nil): explored *)
 Definition c03_twin_accerr_explored : list string := [ "DecodeEdts"; "DecodeSinf"; "DecodeStbl" ].
 
